@@ -639,4 +639,38 @@ def judge_c13(spec, gs, tbs, inputs, diags, dumps, maps, tdiffs, byk, jobs, info
             d = inputs[gi][len(inputs[gi]) // 2]
             out['samples'].append({'grammar': g.text(), 'functors': [r.ftor for r in g.rules], 'input': d.decode('latin-1'), 'expected_log_lvalue': model.expect(g, tb, d, ctx_mode=20).events[:300]})
 
-JUDGES = {'C01': judge_c01, 'C02': judge_c02, 'C09': judge_c09, 'C10': judge_c10, 'C14': judge_c14, 'C16': judge_c16, 'C11': judge_c11, 'C05': judge_c05, 'C08': judge_c08, 'C13': judge_c13}
+
+def judge_c18(spec, gs, tbs, inputs, diags, dumps, maps, tdiffs, byk, jobs, info, out):
+    C = out['counts']
+    crash_check('C18', gs, jobs, byk, info, out, 'site:parse@crash')
+    OPT = {0: (True, True), 1: (True, True), 3: (True, True), 4: (True, True), 7: (False, True), 8: (True, False), 9: (False, False)}
+    for gi, g in enumerate(gs):
+        C['grammars'] += 1
+        if not parseable(gi, gs, tbs, diags, tdiffs): C['grammars_skipped'] += 1; continue
+        tb = tbs[gi]
+        for idx, data in enumerate(inputs[gi]):
+            for mode, (sw, sn) in OPT.items():
+                r = byk.get((gi, idx, mode))
+                if r is None: continue
+                ex = model.expect(g, tb, data, skip_ws=sw, skip_nl=sn)
+                if ex.res.hang: continue
+                C['evaluations'] += 1
+                ncalls = ex.events.count('L')
+                C['lexer_calls_expected'] += ncalls
+                if ncalls >= 2: out['distinct'].append(common.sha(g.key(), data, str(mode))[:12])
+                probs = []
+                if (r.res == 1) != ex.ok: probs.append('result %s, expected %s' % (r.res, ex.ok))
+                if r.events != ex.events:
+                    gl = re.findall(r'L[^;]*;', r.events); wl = re.findall(r'L[^;]*;', ex.events)
+                    if gl != wl: probs.append('lexer calls (offset:remaining:line:col->term:len) %s, expected %s' % (' '.join(gl[:8]), ' '.join(wl[:8])))
+                    else: probs.append('functor log %s, expected %s' % (r.events[:200], ex.events[:200]))
+                if mode != 1 and r.stream != ex.stream: probs.append('stream %r, expected %r' % (r.stream[:100], ex.stream[:100]))
+                if mode == 4 and (r.cb[1] - r.cb[4] > 0 or r.cb[2] or r.cb[3]): probs.append('buffer monitor: ' + r.extra)
+                if probs:
+                    viol(out, g, data, mode, 'custom lexer contract: ' + '; '.join(probs), lexspec_terms={chr(b): (g.lexspec[0][b], g.lexspec[1][b]) for b in range(256) if g.lexspec[0][b] >= 0})
+        if len(out['samples']) < 2 and inputs[gi]:
+            d = inputs[gi][len(inputs[gi]) // 2]
+            out['samples'].append({'grammar': g.text(), 'lexer_script': {chr(b): (g.lexspec[0][b], g.lexspec[1][b]) for b in range(256) if g.lexspec[0][b] >= 0},
+                                   'input': d.decode('latin-1'), 'expected_log': model.expect(g, tb, d).events[:400]})
+
+JUDGES = {'C01': judge_c01, 'C02': judge_c02, 'C09': judge_c09, 'C10': judge_c10, 'C14': judge_c14, 'C16': judge_c16, 'C11': judge_c11, 'C05': judge_c05, 'C08': judge_c08, 'C13': judge_c13, 'C18': judge_c18}
